@@ -82,7 +82,7 @@ def cnt_add(ex, obj, v, delta):
 
 
 def alloc_container(ex, shape):
-    obj = SRef(shape, ex.path.new_id())
+    obj = SRef(shape, ex.path.new_id(shape.cls))
     info = CONTAINERS[shape.cls]
     if info[0] == 'list':
         ex.path.write_field(obj, 'len', mk_int(0))
